@@ -84,3 +84,168 @@ pub open spec fn cs_iter_of<V>(s: Seq<(&Tid, &V)>, m: Map<Tid, V>) -> bool {
     &&& forall |k: Tid| m.contains_key(k) ==> exists |i: int| 0 <= i < s.len() && *(#[trigger] s[i]).0 == k
     &&& cs_keys_sorted(s)
 }
+
+// ---- whole programs: the functions in the order of an (ascending) iteration over program.term.subs -----------------------
+
+pub open spec fn cs_subs_hits(s: Seq<(&Tid, &Term<Sub>)>, p: spec_fn(Tid) -> bool, n: int) -> Seq<CsHit>
+    decreases n
+{
+    if n <= 0 { Seq::empty() } else { cs_subs_hits(s, p, n - 1) + cs_sub_hits(*s[n - 1].1, p) }
+}
+
+/// `s` is the ascending iteration over `subs`, and the call list `v` stands for all hits of the program in that order
+pub open spec fn cs_prog_calls_wit<'a>(s: Seq<(&Tid, &Term<Sub>)>, v: Seq<(&'a str, &'a Tid, &'a str)>, subs: Map<Tid, Term<Sub>>, m: Map<&'a Tid, &'a str>) -> bool {
+    &&& cs_iter_of(s, subs)
+    &&& cs_calls_are(v, cs_subs_hits(s, cs_in_syms(m), s.len() as int), m)
+}
+
+pub open spec fn cs_prog_calls_post<'a>(v: Seq<(&'a str, &'a Tid, &'a str)>, subs: Map<Tid, Term<Sub>>, m: Map<&'a Tid, &'a str>) -> bool {
+    exists |s: Seq<(&Tid, &Term<Sub>)>| #[trigger] cs_prog_calls_wit(s, v, subs, m)
+}
+
+// ---- warnings ------------------------------------------------------------------------------------------------------
+
+/// C16 "observed at the CweWarning lists (addresses, tids, symbols)": the warning for the call site `jmp_tid` in function `sub_name`
+pub open spec fn cs_warn_for(w: CweWarning, sub_name: Seq<char>, jmp_tid: Tid) -> bool {
+    &&& w.addresses@.len() == 1 && w.addresses@[0]@ == jmp_tid.address@
+    &&& w.tids@.len() == 1 && w.tids@[0]@ == cs_tid_fmt(jmp_tid)
+    &&& w.symbols@.len() == 1 && w.symbols@[0]@ == sub_name
+}
+
+/// one warning per entry of the call list, in the same order
+pub open spec fn cs_warns_for_calls<'a>(ws: Seq<CweWarning>, v: Seq<(&'a str, &'a Tid, &'a str)>) -> bool {
+    &&& ws.len() == v.len()
+    &&& forall |i: int| 0 <= i < ws.len() ==> cs_warn_for(#[trigger] ws[i], v[i].0@, *v[i].1)
+}
+
+/// one warning per hit, in the same order
+pub open spec fn cs_warns_for_hits(ws: Seq<CweWarning>, h: Seq<CsHit>) -> bool {
+    &&& ws.len() == h.len()
+    &&& forall |i: int| 0 <= i < ws.len() ==> cs_warn_for(#[trigger] ws[i], h[i].sub_name, h[i].jmp_tid)
+}
+
+// ---- cwe_676::resolve_symbols ------------------------------------------------------------------------------------------
+
+/// the name `n` is on the configured list
+pub open spec fn cs_on_list(l: Seq<String>, n: Seq<char>) -> bool {
+    exists |j: int| 0 <= j < l.len() && (#[trigger] l[j])@ == n
+}
+
+/// (loop invariant) the String `x` is among the first `n` entries of the list
+pub open spec fn cs_str_among(l: Seq<String>, n: int, x: String) -> bool {
+    exists |j: int| 0 <= j < n && #[trigger] l[j] == x
+}
+
+/// (loop invariant) the key `t` lies before position `n` of the iteration `s`
+pub open spec fn cs_visited<V>(s: Seq<(&Tid, &V)>, n: int, t: Tid) -> bool {
+    exists |j: int| 0 <= j < n && *(#[trigger] s[j]).0 == t
+}
+
+/// THE RESULT of resolve_symbols: the keys (as stored in the BTreeMap) of exactly the extern symbols whose NAME is on the list,
+/// each mapped to (a string with the characters of) that name
+pub open spec fn cs_resolved<'a>(r: Map<&'a Tid, &'a str>, ext: Map<Tid, ExternSymbol>, l: Seq<String>) -> bool {
+    &&& forall |t: Tid| #[trigger] r.contains_key(&t) <==> ext.contains_key(t) && cs_on_list(l, ext[t].name@)
+    &&& forall |t: Tid| #[trigger] r.contains_key(&t) ==> r[&t]@ == ext[t].name@
+}
+
+/// (loop invariant of resolve_symbols) after `n` entries of the iteration `s` over the extern symbols
+pub open spec fn cs_resolved_partial<'a>(r: Map<&'a Tid, &'a str>, ext: Map<Tid, ExternSymbol>, l: Seq<String>, s: Seq<(&Tid, &ExternSymbol)>, n: int) -> bool {
+    &&& forall |t: Tid| #[trigger] r.contains_key(&t) <==> cs_visited(s, n, t) && cs_str_among(l, l.len() as int, ext[t].name)
+    &&& forall |t: Tid| #[trigger] r.contains_key(&t) ==> r[&t]@ == ext[t].name@
+}
+
+// ---- C16, first clause: the dangerous-function check --------------------------------------------------------------------
+
+/// "an imported symbol on the configured list": `t` is (the key of) an extern symbol whose NAME is on the list `l`
+pub open spec fn cs_dangerous(ext: Map<Tid, ExternSymbol>, l: Seq<String>) -> spec_fn(Tid) -> bool {
+    |t: Tid| ext.contains_key(t) && cs_on_list(l, ext[t].name@)
+}
+
+/// one warning per direct call to such a symbol, in program order (functions in ascending key order, then blocks, then jumps),
+/// each carrying the address / tid of the calling jump and the name of the calling function
+pub open spec fn cs_warns_per_call_wit(s: Seq<(&Tid, &Term<Sub>)>, ws: Seq<CweWarning>, subs: Map<Tid, Term<Sub>>, p: spec_fn(Tid) -> bool) -> bool {
+    &&& cs_iter_of(s, subs)
+    &&& cs_warns_for_hits(ws, cs_subs_hits(s, p, s.len() as int))
+}
+
+pub open spec fn cs_warns_per_call(ws: Seq<CweWarning>, subs: Map<Tid, Term<Sub>>, p: spec_fn(Tid) -> bool) -> bool {
+    exists |s: Seq<(&Tid, &Term<Sub>)>| #[trigger] cs_warns_per_call_wit(s, ws, subs, p)
+}
+
+// ---- C16, second clause: the ioctl check ---------------------------------------------------------------------------------
+
+/// the predicate "is the tid x"
+pub open spec fn cs_is_tid(x: Tid) -> spec_fn(Tid) -> bool {
+    |t: Tid| t == x
+}
+
+/// THE POSTCONDITION of cwe_782::check_cwe: no warning when no extern symbol is named `name`; otherwise one warning per direct
+/// call whose target is the tid of the FIRST extern symbol with that name, in program order
+pub open spec fn cs_warns_calls_to_named(ws: Seq<CweWarning>, subs: Map<Tid, Term<Sub>>, ext: Map<Tid, ExternSymbol>, name: Seq<char>) -> bool {
+    &&& !cs_named(ext, name) ==> ws.len() == 0
+    &&& cs_named(ext, name) ==> exists |k: Tid| #[trigger] cs_first_named(ext, name, k) && cs_warns_per_call(ws, subs, cs_is_tid(ext[k].tid))
+}
+
+// ---- C16, third clause: the untrusted-search-path check ---------------------------------------------------------------------
+
+/// `t` is the tid of the symbol find_symbol finds for `name` (the first extern symbol with that name)
+pub open spec fn cs_found_tid(ext: Map<Tid, ExternSymbol>, name: Seq<char>, t: Tid) -> bool {
+    exists |k: Tid| #[trigger] cs_first_named(ext, name, k) && t == ext[k].tid
+}
+
+pub open spec fn cs_found(ext: Map<Tid, ExternSymbol>, name: Seq<char>) -> spec_fn(Tid) -> bool {
+    |t: Tid| cs_found_tid(ext, name, t)
+}
+
+/// `t` is the tid of the symbol found for one of the first `n` names of the list
+pub open spec fn cs_found_any_tid(ext: Map<Tid, ExternSymbol>, l: Seq<String>, n: int, t: Tid) -> bool {
+    exists |j: int| 0 <= j < n && cs_found_tid(ext, (#[trigger] l[j])@, t)
+}
+
+pub open spec fn cs_found_any(ext: Map<Tid, ExternSymbol>, l: Seq<String>) -> spec_fn(Tid) -> bool {
+    |t: Tid| cs_found_any_tid(ext, l, l.len() as int, t)
+}
+
+/// one of the first `n` names of the list is the name of an extern symbol
+pub open spec fn cs_any_named(ext: Map<Tid, ExternSymbol>, l: Seq<String>, n: int) -> bool {
+    exists |j: int| 0 <= j < n && cs_named(ext, (#[trigger] l[j])@)
+}
+
+/// the function contains a direct call to a `p1` symbol AND a direct call to a `p2` symbol
+pub open spec fn cs_sub_flagged(sub: Term<Sub>, p1: spec_fn(Tid) -> bool, p2: spec_fn(Tid) -> bool) -> bool {
+    cs_sub_hits(sub, p1).len() > 0 && cs_sub_hits(sub, p2).len() > 0
+}
+
+/// the flagged functions among the first `n` of the iteration, in that order
+pub open spec fn cs_flagged(s: Seq<(&Tid, &Term<Sub>)>, p1: spec_fn(Tid) -> bool, p2: spec_fn(Tid) -> bool, n: int) -> Seq<Term<Sub>>
+    decreases n
+{
+    if n <= 0 { Seq::empty() } else {
+        cs_flagged(s, p1, p2, n - 1) + (if cs_sub_flagged(*s[n - 1].1, p1, p2) { seq![*s[n - 1].1] } else { Seq::empty() })
+    }
+}
+
+/// one warning per listed function: its address, its tid, its name
+pub open spec fn cs_warns_for_subs(ws: Seq<CweWarning>, fs: Seq<Term<Sub>>) -> bool {
+    &&& ws.len() == fs.len()
+    &&& forall |i: int| 0 <= i < ws.len() ==> cs_warn_for(#[trigger] ws[i], fs[i].term.name@, fs[i].tid)
+}
+
+pub open spec fn cs_warns_per_sub_wit(s: Seq<(&Tid, &Term<Sub>)>, ws: Seq<CweWarning>, subs: Map<Tid, Term<Sub>>, p1: spec_fn(Tid) -> bool, p2: spec_fn(Tid) -> bool) -> bool {
+    &&& cs_iter_of(s, subs)
+    &&& cs_warns_for_subs(ws, cs_flagged(s, p1, p2, s.len() as int))
+}
+
+pub open spec fn cs_warns_per_sub(ws: Seq<CweWarning>, subs: Map<Tid, Term<Sub>>, p1: spec_fn(Tid) -> bool, p2: spec_fn(Tid) -> bool) -> bool {
+    exists |s: Seq<(&Tid, &Term<Sub>)>| #[trigger] cs_warns_per_sub_wit(s, ws, subs, p1, p2)
+}
+
+/// THE POSTCONDITION of cwe_426::check_cwe.  No warning when "system" or every configured name is absent (then no function
+/// can be flagged); otherwise exactly the flagged functions, in ascending key order.
+pub open spec fn cs_426_post(ws: Seq<CweWarning>, subs: Map<Tid, Term<Sub>>, ext: Map<Tid, ExternSymbol>, l: Seq<String>) -> bool {
+    if cs_named(ext, "system"@) && cs_any_named(ext, l, l.len() as int) {
+        cs_warns_per_sub(ws, subs, cs_found(ext, "system"@), cs_found_any(ext, l))
+    } else {
+        ws.len() == 0
+    }
+}
